@@ -341,6 +341,11 @@ def list_method(I, st, ref, h, name, args, kwargs, node):
     if h.concrete:
         return clist_method(I, st, ref, h, name, args, kwargs, node)
     n, arr, k = h.n, h.arr, h.k
+    if name == "append" and isinstance(args[0], (SSeq, tuple)) and k == "obj":
+        # a sequence stored into an object array: box it on the heap
+        a0 = args[0]
+        box = st.alloc(HList(arr=a0.arr, n=a0.n, k=a0.k, tag="tuple") if isinstance(a0, SSeq) else HList(items=list(a0), tag="tuple"))
+        args = [box]
     if name == "append":
         h.arr = arr_store(arr, k, n, args[0], to_term)
         h.n = n + 1
@@ -538,6 +543,30 @@ def dict_method(I, st, ref, h, name, args, kwargs, node):
             return [(st, None)]
     if name == "copy":
         return [(st, st.alloc(HDict(dom=h.dom, val=h.val, size=h.size, kk=h.kk, vk=h.vk)))]
+    if name == "pop":
+        k = to_term(args[0], h.kk)
+        out = []
+        for s, b in I.fork_bool(st, z3.Select(h.dom, k)):
+            hh = s.get(ref)
+            if b:
+                v = Sym(z3.Select(hh.val, k), hh.vk)
+                hh.dom = z3.Store(hh.dom, k, False)
+                hh.size = hh.size - 1
+                out.append((s, v))
+            elif len(args) > 1:
+                out.append((s, args[1]))
+            else:
+                out += raise_(s, KeyError, args[0], node=node)
+        return out
+    if name == "__iter__" or name == "keys":
+        # some enumeration of the keys: a fresh sequence all of whose elements are keys
+        from .values import fresh_sseq
+        ks = fresh_sseq("keys", h.kk)
+        j = z3.Int(fresh_name("j"))
+        st.assume(ks.n == h.size, z3.ForAll([j], z3.Implies(z3.And(0 <= j, j < ks.n), z3.Select(h.dom, z3.Select(ks.arr, j)))))
+        kq = z3.Const(fresh_name("kq"), KIND_SORT[h.kk])
+        st.assume(z3.Implies(z3.Exists([kq], z3.Select(h.dom, kq)), ks.n > 0))
+        return [(st, st.alloc(HIter(ks, 0)))]
     raise Unsupported(f"dict.{name} on abstract dict", node)
 
 
@@ -1020,6 +1049,10 @@ def builtin_iter(I, st, args, kwargs, node):
             return [(st, st.alloc(HIter(SSeq(h.arr, h.n, h.k), 0)))]
         if isinstance(h, HObj):
             return I.call_method(st, a, "__iter__", [], {}, node)
+        if isinstance(h, HDict):
+            if h.concrete:
+                return [(st, st.alloc(HIter(list(h.items.keys()), 0)))]
+            return dict_method(I, st, a, h, "__iter__", [], {}, node)
     if isinstance(a, SSeq):
         return [(st, st.alloc(HIter(a, 0)))]
     if isinstance(a, tuple):
